@@ -1,3 +1,61 @@
-import JSight.Basic
+import JSight.Proofs.Registry
+/-!
+C20 — locality at the name level: inserting a declaration with a fresh key, or deleting a declaration,
+changes exactly its own entry; other collections are untouched.
+-/
 namespace JSight.C20
+open JSight.Reg
+
+/-- adding a declaration with a fresh key anywhere keeps the document accepted and adds exactly its entry -/
+theorem add_fresh (pre post : List Decl) (d : Decl) (es : Entries)
+    (h : addAll [] (pre ++ post) = .ok es)
+    (hfresh : (d.coll, d.key) ∉ (pre ++ post).map (fun x => (x.coll, x.key))) :
+    ∃ es', addAll [] (pre ++ d :: post) = .ok es' ∧ es'.Perm ((d.coll, d.key) :: es) ∧
+      ∀ c, c ≠ d.coll → collection es' c = collection es c := by
+  obtain ⟨hnd, he⟩ := (addAll_nil_ok_iff _ _).mp h
+  have hp : ((pre ++ d :: post).map (fun x => (x.coll, x.key))).Perm
+      ((d.coll, d.key) :: (pre ++ post).map (fun x => (x.coll, x.key))) := by
+    exact (List.perm_middle (a := d) (l₁ := pre) (l₂ := post)).map (fun x => (x.coll, x.key))
+  have hnd' : ((pre ++ d :: post).map (fun x => (x.coll, x.key))).Nodup :=
+    hp.nodup_iff.mpr (List.nodup_cons.mpr ⟨hfresh, hnd⟩)
+  refine ⟨_, (addAll_nil_ok_iff _ _).mpr ⟨hnd', rfl⟩, ?_, ?_⟩
+  · rw [he]; exact hp
+  · intro c hc
+    rw [he, List.map_append, List.map_append, List.map_cons, collection_append, collection_append,
+      collection_cons_ne _ _ _ hc]
+
+/-- deleting a declaration removes exactly its entry -/
+theorem remove_decl (pre post : List Decl) (d : Decl) (es' : Entries)
+    (h : addAll [] (pre ++ d :: post) = .ok es') :
+    ∃ es, addAll [] (pre ++ post) = .ok es ∧ es'.Perm ((d.coll, d.key) :: es) := by
+  obtain ⟨hnd, he⟩ := (addAll_nil_ok_iff _ _).mp h
+  have hp : ((pre ++ d :: post).map (fun x => (x.coll, x.key))).Perm
+      ((d.coll, d.key) :: (pre ++ post).map (fun x => (x.coll, x.key))) := by
+    exact (List.perm_middle (a := d) (l₁ := pre) (l₂ := post)).map (fun x => (x.coll, x.key))
+  have hnd' := (List.nodup_cons.mp (hp.nodup_iff.mp hnd)).2
+  refine ⟨_, (addAll_nil_ok_iff _ _).mpr ⟨hnd', rfl⟩, ?_⟩
+  rw [he]; exact hp
+
+/-- (corollary) deleting a declaration leaves every other collection unchanged -/
+theorem remove_decl_other (pre post : List Decl) (d : Decl) (es' : Entries)
+    (h : addAll [] (pre ++ d :: post) = .ok es') :
+    ∃ es, addAll [] (pre ++ post) = .ok es ∧ ∀ c, c ≠ d.coll → collection es' c = collection es c := by
+  obtain ⟨es, hes, _⟩ := remove_decl pre post d es' h
+  have hfresh : (d.coll, d.key) ∉ (pre ++ post).map (fun x => (x.coll, x.key)) := by
+    obtain ⟨hnd, _⟩ := (addAll_nil_ok_iff _ _).mp h
+    have hp := (List.perm_middle (a := d) (l₁ := pre) (l₂ := post)).map (fun x => (x.coll, x.key))
+    exact (List.nodup_cons.mp (hp.nodup_iff.mp hnd)).1
+  obtain ⟨es'', h'', _, hc⟩ := add_fresh pre post d es hes hfresh
+  rw [h] at h''
+  injection h'' with h''
+  subst h''
+  exact ⟨es, hes, hc⟩
+
+/-! non-vacuity -/
+local instance {ε α : Type} [DecidableEq ε] [DecidableEq α] : DecidableEq (Except ε α) := decExcept
+example : addAll [] ([⟨.types, 1, 10⟩] ++ ⟨.urls, 7, 20⟩ :: [⟨.types, 2, 30⟩])
+    = .ok [(.types, 1), (.urls, 7), (.types, 2)] := by decide
+example : collection [(.types, 1), (.urls, 7), (.types, 2)] .types = collection [(.types, 1), (.types, 2)] .types := by
+  decide
+
 end JSight.C20
